@@ -178,6 +178,54 @@ type FnExec struct {
 	inputNames []string
 	depthLimit int
 	caseTag    string
+	heapInvs   map[string][]*HeapInv // resolved lazily: heap name -> invariants
+}
+
+// invsFor resolves the heap invariants that apply to a heap name (value heaps of maps count under the MV_ name).
+func (x *FnExec) invsFor(heap string) []*HeapInv {
+	if x.heapInvs == nil {
+		x.heapInvs = map[string][]*HeapInv{}
+		for _, hi := range x.eng.specs.HeapInvs {
+			names, err := x.eng.resolveHeapSpec(x, hi.Pkg, hi.Heap)
+			if err != nil {
+				x.errf("invariant %q: %v", hi.Src, err)
+				continue
+			}
+			for _, n := range names {
+				if strings.HasPrefix(n, "|MD_") || strings.HasPrefix(n, "|ML_") {
+					continue
+				}
+				x.heapInvs[n] = append(x.heapInvs[n], hi)
+			}
+		}
+	}
+	return x.heapInvs[heap]
+}
+
+// assumeCellInv: a value just read from `heap` satisfies the heap's invariants.
+func (x *FnExec) assumeCellInv(fr *frame, st *State, reach, heap, val string, t types.Type) {
+	for _, hi := range x.invsFor(heap) {
+		ctx := &evalCtx{env: map[ssa.Value]Val{}, st: st, old: st, noLocals: true, pkg: x.eng.pkgByPath(hi.Pkg), extra: map[string]Val{"value": {S: val, T: t}}}
+		g, err := x.evalBool(fr, hi.Expr, ctx)
+		if err != nil {
+			x.errf("invariant %q: %v", hi.Src, err)
+			continue
+		}
+		x.q.assert(implies(reach, g))
+	}
+}
+
+// proveCellInv: a value about to be written into `heap` satisfies the heap's invariants.
+func (x *FnExec) proveCellInv(fr *frame, st *State, reach, heap, val string, t types.Type, pos token.Pos) {
+	for _, hi := range x.invsFor(heap) {
+		ctx := &evalCtx{env: map[ssa.Value]Val{}, st: st, old: st, noLocals: true, pkg: x.eng.pkgByPath(hi.Pkg), extra: map[string]Val{"value": {S: val, T: t}}}
+		g, err := x.evalBool(fr, hi.Expr, ctx)
+		if err != nil {
+			x.errf("invariant %q: %v", hi.Src, err)
+			continue
+		}
+		x.addObl("typeinv", strings.Trim(heap, "|"), reach, g, "value stored keeps the cell invariant: "+hi.Src, pos)
+	}
 }
 
 func (x *FnExec) errf(format string, args ...interface{}) {
@@ -309,12 +357,12 @@ func (x *FnExec) loadAddr(st *State, a *Addr) string {
 			}
 			root = x.q.mkStruct(a.RootT, fs)
 		} else {
-			root = sel(x.heapGet(st, a.Heap, a.HSort), a.Base)
+			root = x.q.rw(x.heapGet(st, a.Heap, a.HSort), a.Base)
 		}
 	case rootElem:
-		root = sel(sel(x.heapGet(st, a.Heap, a.HSort), a.Base), a.Idx)
+		root = sel(x.q.rw(x.heapGet(st, a.Heap, a.HSort), a.Base), a.Idx)
 	case rootBox, rootArr:
-		root = sel(x.heapGet(st, a.Heap, a.HSort), a.Base)
+		root = x.q.rw(x.heapGet(st, a.Heap, a.HSort), a.Base)
 	case rootGlobal:
 		root = x.heapGet(st, a.Heap, a.HSort)
 	}
